@@ -252,24 +252,24 @@ theorem nativeGuard_append_x (t : Token) (rest tail : List Nat) :
 
 /-- **The number model on the parser's buffer.**  `bs` is the input text, `buf` any buffer that agrees with
     `bs ++ x"x ++ pad` from `start` on (`BufAt`, whatever the padding and whatever lies below `start`).  At a position
-    where the reference scanner finds, in the text `bs`, a token with written exponent below 100000 in magnitude whose
-    following byte satisfies `nativeGuard` — or finds no token at all — `parseNumber` agrees with the reference
+    where the reference scanner finds, in the text `bs` (shorter than `2^32` bytes), a token whose following byte
+    satisfies `nativeGuard` — or finds no token at all — `parseNumber` agrees with the reference
     (`NumAgrees`: kind, value, end index with `start < next ≤ |bs|`, infinity ↔ `kParseErrorInfinity`,
     malformed ↔ `kParseErrorInvalidChar`). -/
 theorem number_agrees_padded (bs pad buf : List Nat) (start : Nat) (hs : start ≤ bs.length)
     (hb : buf.drop start = (paddedBuf bs pad).drop start)
-    (hgood : ∀ t, scanToken (bs.drop start) = some t →
-      (expVal t.exp).natAbs < 100000 ∧ nativeGuard t ((bs.drop start).drop t.len) = true) :
+    (hL : bs.length < 2 ^ 32)
+    (hgood : ∀ t, scanToken (bs.drop start) = some t → nativeGuard t ((bs.drop start).drop t.len) = true) :
     NumAgrees start bs.length (scanNumber bs start) (numOut (parseNumber buf bs.length start)) := by
   obtain ⟨htok, hnum⟩ := scan_padded bs pad buf start hs hb
   rw [← hnum]
   cases ht : scanToken (bs.drop start) with
   | none => exact parseNumber_malformed_agrees buf bs.length start (by rw [htok, ht])
   | some t =>
-    obtain ⟨hexp, hg⟩ := hgood t ht
+    have hg := hgood t ht
     have hlen := token_len_le _ t ht
     rw [List.length_drop] at hlen
-    apply parseNumber_correct buf bs.length start t (by rw [htok, ht]) (by omega) hexp
+    apply parseNumber_correct buf bs.length start t (by rw [htok, ht]) (by omega) (Or.inr (by omega))
     rw [hb, padded_drop bs pad start hs, List.drop_append_of_le_length (by rw [List.length_drop]; omega),
       nativeGuard_append_x]
     exact hg
@@ -347,7 +347,8 @@ theorem parseNumber_shape (buf : List Nat) (len start : Nat) (t : Token)
     the padding bytes and of everything else in the buffer -/
 theorem parseNumber_numOut (buf : List Nat) (len start : Nat) (t : Token)
     (ht : scanToken (buf.drop start) = some t) (hlen : start + t.len ≤ len)
-    (hexp : (expVal t.exp).natAbs < 100000) (hg : nativeGuard t ((buf.drop start).drop t.len) = true) :
+    (hexp : (expVal t.exp).natAbs < 10000000000000000 ∨ t.len < 2 ^ 32)
+    (hg : nativeGuard t ((buf.drop start).drop t.len) = true) :
     (∀ v n, scanNumber buf start = .ok v n → numOut (parseNumber buf len start) = .ok v n) ∧
     (∀ n, scanNumber buf start = .infinity n → numOut (parseNumber buf len start) = .err errInfinity n) := by
   have hagr := parseNumber_correct buf len start t ht hlen hexp hg
